@@ -47,6 +47,9 @@ type Plan struct {
 	Out func(step string, o Out) []Out
 	// CloseAfter, if set, closes the connection right after the named step was written.
 	CloseAfter string
+	// IgnoreAlerts: a peer that presses on after the other side sent an alert (alerts read during the handshake are
+	// logged and skipped instead of ending the script).
+	IgnoreAlerts bool
 }
 
 func (p *Plan) apply(step string, o Out) []Out {
@@ -268,6 +271,10 @@ func (p *Peer) readHS() (byte, []byte, error) {
 			if len(data) == 2 {
 				a := [2]byte{data[0], data[1]}
 				p.AlertIn = &a
+				if p.plan != nil && p.plan.IgnoreAlerts {
+					p.Log = append(p.Log, fmt.Sprintf("ignored alert %d/%d", data[0], data[1]))
+					continue
+				}
 				return 0, nil, ErrAlert{data[0], data[1]}
 			}
 			return 0, nil, errors.New("malformed alert")
